@@ -413,3 +413,405 @@ Proof. exact dict_unpacks_everywhere. Qed.
 Print Assumptions T02x_dict_unpacks_everywhere.
 
 End Expr.
+
+(* =========================================================================================== *)
+(* Comp = loop -> comprehension rules (RulesCompModel / RulesCompProofs).  Values, worlds and traces
+   are those of the Expr tranche; statements run by `exec_block : world -> list st -> env -> trace ->
+   option (env * trace)` (None = an exception).  `site_rel w Tg before after`: every run of `before`
+   that terminates normally is matched by a run of `after` with the same trace and the same final
+   environment outside the names in Tg (the loop variables, which a comprehension does not bind).
+   needs:  Require Pyrefact.RulesCompModel Pyrefact.RulesCompProofs. *)
+Require Pyrefact.RulesCompModel Pyrefact.RulesCompProofs.
+
+Module Comp.
+Import ZArith.
+Import ListNotations.
+Import Pyrefact.RulesExprModel Pyrefact.RulesCompModel Pyrefact.RulesCompProofs.
+
+(* T02c.0  an expression only depends on the names it mentions; code that does not read the names in D
+   (in the sense of fixes._is_read_after_loop) cannot tell two environments apart that differ on D only *)
+Theorem T02c_frame : forall w e en1 en2 tr,
+  (forall y, mentions y e = true -> en1 y = en2 y) -> eval w e en1 tr = eval w e en2 tr.
+Proof. exact eval_frame. Qed.
+Print Assumptions T02c_frame.
+
+Theorem T02c_dead_variables : forall w l D en1 en2 tr, dead_blk D l -> agree_on (SD D) en1 en2 ->
+  ex_rel D (exec_block w l en1 tr) (exec_block w l en2 tr).
+Proof. exact exec_block_dead. Qed.
+Print Assumptions T02c_dead_variables.
+
+(* T02c.1  a for / if nest of any depth that appends to x  ~  the list comprehension with the same clauses,
+   for every start value l0 of x (guard: nothing in the nest mentions x, x is no loop variable, every
+   expression only reads loop variables that an enclosing for has bound: top_scoped) *)
+Theorem T02c_list_nest : forall w x cl e l0 en tr el' tr',
+  nest_guard x [] cl [e] = true ->
+  exec_block w (build cl [SMeth (RName x) MAppend e]) (upd en x (VList l0)) tr = Some (el', tr') ->
+  exists acc,
+    eval w (XComp CList e dummy (map (gen_of true) cl)) en tr = Some (VList acc, tr')
+    /\ el' x = Some (VList (l0 ++ acc))
+    /\ (forall y, y <> x -> memn y (clause_targets cl) = false -> el' y = en y).
+Proof. exact list_nest_sound. Qed.
+Print Assumptions T02c_list_nest.
+
+Theorem T02c_set_nest : forall w x cl e s0 en tr el' tr',
+  nest_guard x [] cl [e] = true ->
+  exec_block w (build cl [SMeth (RName x) MAdd e]) (upd en x (VSet s0)) tr = Some (el', tr') ->
+  exists acc,
+    eval w (XComp CSet e dummy (map (gen_of true) cl)) en tr = Some (VSet (fold_left set_add acc []), tr')
+    /\ el' x = Some (VSet (fold_left set_add acc s0))
+    /\ (forall y, y <> x -> memn y (clause_targets cl) = false -> el' y = en y).
+Proof. exact set_nest_sound. Qed.
+Print Assumptions T02c_set_nest.
+
+Theorem T02c_sum_nest : forall w x cl e o z0 en tr el' tr',
+  (o = OAdd \/ o = OSub) ->
+  nest_guard x [] cl [e] = true ->
+  exec_block w (build cl [SAug x o e]) (upd en x (VInt z0)) tr = Some (el', tr') ->
+  exists s,
+    eval w (XBi BSum [XComp CGen e dummy (map (gen_of true) cl)]) en tr = Some (VInt s, tr')
+    /\ el' x = Some (VInt (sgn o z0 s))
+    /\ (forall y, y <> x -> memn y (clause_targets cl) = false -> el' y = en y).
+Proof. exact sum_nest_sound. Qed.
+Print Assumptions T02c_sum_nest.
+
+(* T02c.2  fixes.replace_for_loops_with_set_list_comp (repaired: 1afd4ce 2b2a2c8 fc76563 cb1c1c8 c45a7c4):
+   whenever the model of the rule rewrites `x = <start>; for ...` (append / add / += / -=), the result runs
+   like the original, up to the loop variables; and with any code behind it that the rule's own condition
+   dead_after accepts *)
+Theorem T02c_setlist_site : forall w after s1 s2 s',
+  site_setlist after s1 s2 = Some s' -> site_scoped s1 s2 = true ->
+  forall en tr en1 tr1, exec_block w [s1; s2] en tr = Some (en1, tr1) ->
+  exists en2, exec_block w [s'] en tr = Some (en2, tr1)
+    /\ forall y, memn y (site_targets s2) = false -> en1 y = en2 y.
+Proof. exact setlist_site_sound. Qed.
+Print Assumptions T02c_setlist_site.
+
+Theorem T02c_setlist_in_context : forall w s1 s2 s' rest,
+  site_setlist (fun n => blk_rd n rest) s1 s2 = Some s' -> site_scoped s1 s2 = true ->
+  site_rel w (site_targets s2) (s1 :: s2 :: rest) (s' :: rest).
+Proof. exact setlist_in_context. Qed.
+Print Assumptions T02c_setlist_in_context.
+
+(* without the scoping guard (finding F02comp-6): `for b in b` inside the nest *)
+Theorem T02c_setlist_scope_refuted :
+  exists w s' en tr r, site_setlist no_after (fst scope_prog) (snd scope_prog) = Some s'
+    /\ exec_block w [fst scope_prog; snd scope_prog] en tr = Some r /\ exec_block w [s'] en tr = None.
+Proof. exact setlist_scope_refuted. Qed.
+Print Assumptions T02c_setlist_scope_refuted.
+
+Example T02c_setlist_guard_example :
+  site_scoped (fst good_prog) (snd good_prog) = true
+  /\ site_setlist no_after (fst good_prog) (snd good_prog)
+     = Some (SAssign 1 (XComp CList (XCall 0 [XName 2; XName 4]) dummy
+                          [XGen (TName 2) (XName 8) [XCall 4 [XName 2]];
+                           XGen (TName 4) (XCall 5 [XName 2]) [XName 4]])).
+Proof. exact setlist_guard_example. Qed.
+
+(* full equality of the final environments fails: the loop variable is gone (why the rule needs dead_after) *)
+Theorem T02c_setlist_leak_refuted :
+  exists w s1 s2 s' en tr en1 en2 tr1 tr2, site_setlist no_after s1 s2 = Some s'
+    /\ exec_block w [s1; s2] en tr = Some (en1, tr1) /\ exec_block w [s'] en tr = Some (en2, tr2)
+    /\ en1 2%nat <> en2 2%nat.
+Proof. exact setlist_leak_refuted. Qed.
+Print Assumptions T02c_setlist_leak_refuted.
+
+(* T02c.2d  fixes.replace_for_loops_with_dict_comp (repaired: 1afd4ce 2b2a2c8 fc76563 9a002ae), every start
+   form ({}, {**a, **b}, other displays, a dict comprehension): d[k] = v evaluates v before k, the comprehension k
+   before v, so the rule (and the theorem) wants one of them without calls of unknown functions *)
+Theorem T02c_dict_nest : forall w x cl k v d0 en tr el' tr',
+  nest_guard x [] cl [k; v] = true -> effect k && effect v = false ->
+  exec_block w (build cl [SSetItem x k v]) (upd en x (VDict d0)) tr = Some (el', tr') ->
+  exists dc,
+    eval w (XComp CDict k v (map (gen_of true) cl)) en tr = Some (VDict dc, tr')
+    /\ el' x = Some (VDict (dict_update d0 dc))
+    /\ (forall y, y <> x -> memn y (clause_targets cl) = false -> el' y = en y).
+Proof. exact dict_nest_sound. Qed.
+Print Assumptions T02c_dict_nest.
+
+Theorem T02c_dictcomp_site : forall w after s1 s2 s',
+  site_dictcomp after s1 s2 = Some s' -> site_scoped s1 s2 = true ->
+  forall en tr en1 tr1, exec_block w [s1; s2] en tr = Some (en1, tr1) ->
+  exists en2, exec_block w [s'] en tr = Some (en2, tr1)
+    /\ forall y, memn y (site_targets s2) = false -> en1 y = en2 y.
+Proof. exact dictcomp_site_sound. Qed.
+Print Assumptions T02c_dictcomp_site.
+
+Theorem T02c_dictcomp_in_context : forall w s1 s2 s' rest,
+  site_dictcomp (fun n => blk_rd n rest) s1 s2 = Some s' -> site_scoped s1 s2 = true ->
+  site_rel w (site_targets s2) (s1 :: s2 :: rest) (s' :: rest).
+Proof. exact dictcomp_in_context. Qed.
+Print Assumptions T02c_dictcomp_in_context.
+
+(* the rule before 9a002ae: key and value both call an unknown function -> the calls change places *)
+Theorem T02c_dictcomp_order_refuted :
+  exists w s1 s2 s' en tr r r', site_dictcomp_old s1 s2 = Some s'
+    /\ exec_block w [s1; s2] en tr = Some r /\ exec_block w [s'] en tr = Some r' /\ snd r <> snd r'.
+Proof. exact dictcomp_order_refuted. Qed.
+Print Assumptions T02c_dictcomp_order_refuted.
+
+(* T02c.3  fixes.replace_listcomp_append_with_plus / replace_setcomp_add_with_union (both forms) *)
+Theorem T02c_fold_site : forall w is_set after s1 s2 s',
+  site_fold is_set after s1 s2 = Some s' ->
+  (match s1 with SAssign _ value => fold_typed is_set s2 value | _ => false end) = true ->
+  forall en tr en1 tr1, exec_block w [s1; s2] en tr = Some (en1, tr1) ->
+  exists en2, exec_block w [s'] en tr = Some (en2, tr1)
+    /\ forall y, memn y (match s2 with SFor t _ _ _ => tnames t | _ => [] end) = false -> en1 y = en2 y.
+Proof. exact fold_site_sound. Qed.
+Print Assumptions T02c_fold_site.
+
+Theorem T02c_fold_in_context : forall w is_set s1 s2 s' rest,
+  site_fold is_set (fun n => blk_rd n rest) s1 s2 = Some s' ->
+  (match s1 with SAssign _ value => fold_typed is_set s2 value | _ => false end) = true ->
+  site_rel w (match s2 with SFor t _ _ _ => tnames t | _ => [] end) (s1 :: s2 :: rest) (s' :: rest).
+Proof. exact fold_in_context. Qed.
+Print Assumptions T02c_fold_in_context.
+
+(* finding F02comp-4: v = 1 + 2; for i in []: v.append(i) *)
+Theorem T02c_plus_refuted :
+  exists w s1 s2 s' en tr r, site_fold false no_after s1 s2 = Some s'
+    /\ exec_block w [s1; s2] en tr = Some r /\ exec_block w [s'] en tr = None.
+Proof. exact plus_refuted. Qed.
+Print Assumptions T02c_plus_refuted.
+
+(* T02c.4  fixes.replace_nested_loops_with_set_list_comp (repaired: 198a69c 93d9c07 c431d63) *)
+Theorem T02c_nested_loops_site : forall w fresh after s s',
+  site_nested fresh after s = Some s' -> nested_guard fresh s = true ->
+  forall x l0 en tr en1 tr1, nested_receiver s = Some x -> en x = Some (VList l0) ->
+  exec_block w [s] en tr = Some (en1, tr1) ->
+  exists en2, exec_block w [s'] en tr = Some (en2, tr1)
+    /\ forall y, memn y (nested_dead s) = false -> en1 y = en2 y.
+Proof. exact nested_site_sound. Qed.
+Print Assumptions T02c_nested_loops_site.
+
+Theorem T02c_nested_loops_in_context : forall w fresh s s' rest x l0,
+  site_nested fresh (fun n => blk_rd n rest) s = Some s' -> nested_guard fresh s = true ->
+  nested_receiver s = Some x ->
+  forall en tr en1 tr1, en x = Some (VList l0) ->
+  exec_block w (s :: rest) en tr = Some (en1, tr1) ->
+  exists en2, exec_block w (s' :: rest) en tr = Some (en2, tr1)
+    /\ forall y, memn y (nested_dead s) = false -> en1 y = en2 y.
+Proof. exact nested_in_context. Qed.
+Print Assumptions T02c_nested_loops_in_context.
+
+(* finding F02comp-3: x unbound and the loop does not run *)
+Theorem T02c_nested_loops_refuted :
+  exists w s s' en tr r, site_nested 1000 no_after s = Some s'
+    /\ exec_block w [s] en tr = Some r /\ exec_block w [s'] en tr = None.
+Proof. exact nested_loops_refuted. Qed.
+Print Assumptions T02c_nested_loops_refuted.
+
+(* T02c.5  fixes.remove_redundant_comprehensions (repaired: 668bf19): list / set / generator form *)
+Theorem T02c_redundant : forall w e e' en tr,
+  rw_redundant e = Some e' -> (match e with XComp CDict _ _ _ => false | _ => true end) = true ->
+  eval w e' en tr = eval w e en tr.
+Proof. exact redundant_seq_sound. Qed.
+Print Assumptions T02c_redundant.
+
+(* the dict form on a mapping (finding F02-49) *)
+Theorem T02c_redundant_dict_refuted :
+  exists w e e' en tr r r', rw_redundant e = Some e' /\ eval w e en tr = Some r /\ eval w e' en tr = Some r' /\ r <> r'.
+Proof. exact redundant_dict_refuted. Qed.
+Print Assumptions T02c_redundant_dict_refuted.
+
+(* T02c.6  fixes.replace_map_lambda_with_comp / replace_filter_lambda_with_comp (repaired: abb6f9f) *)
+Theorem T02c_map : forall w e e' en tr, rw_map e = Some e' -> eval w e' en tr = eval w e en tr.
+Proof. exact map_sound. Qed.
+Print Assumptions T02c_map.
+
+Theorem T02c_filter : forall w e e' en tr, rw_filter e = Some e' -> eval w e' en tr = eval w e en tr.
+Proof. exact filter_sound. Qed.
+Print Assumptions T02c_filter.
+
+Theorem T02c_filter_old_refuted :
+  exists w e e' en tr, rw_filter_old e = Some e' /\ eval w e' en tr <> eval w e en tr.
+Proof. exact filter_old_refuted. Qed.
+Print Assumptions T02c_filter_old_refuted.
+
+(* T02c.7  fixes.merge_chained_comps / merge_nested_comprehensions: the call order changes (findings
+   F02comp-1, F02comp-2) *)
+Theorem T02c_chained_refuted :
+  exists w e e' en tr r r', rw_chained e = Some e' /\ eval w e en tr = Some r /\ eval w e' en tr = Some r' /\ r <> r'.
+Proof. exact chained_refuted. Qed.
+Print Assumptions T02c_chained_refuted.
+
+(* ... and is unchanged when the inner conditions make no unknown calls (list / generator in the same kind) *)
+Theorem T02c_chained_partial : forall w e e' en tr,
+  rw_chained e = Some e' -> chained_guard e = true -> eval w e' en tr = eval w e en tr.
+Proof. exact chained_partial. Qed.
+Print Assumptions T02c_chained_partial.
+
+Example T02c_chained_guard_example :
+  let e := XComp CList (XCall 0 [XName 2]) dummy
+             [XGen (TName 2) (XComp CList (XName 2) dummy [XGen (TName 2) (XName 8) [XName 2; XNot (XName 3)]])
+                [XCall 4 [XName 2]]] in
+  chained_guard e = true
+  /\ rw_chained e = Some (XComp CList (XCall 0 [XName 2]) dummy
+                            [XGen (TName 2) (XName 8) [XName 2; XNot (XName 3); XCall 4 [XName 2]]]).
+Proof. exact chained_guard_example. Qed.
+
+(* merge_nested_comprehensions where no renaming is needed (inner target = outer target, one inner clause) *)
+Theorem T02c_nested_comps_partial : forall w e e' en tr,
+  rw_nested e = Some e' -> nested_guard_same e = true -> eval w e' en tr = eval w e en tr.
+Proof. exact nested_partial. Qed.
+Print Assumptions T02c_nested_comps_partial.
+
+Theorem T02c_nested_comps_refuted :
+  exists w e e' en tr r r', rw_nested e = Some e' /\ eval w e en tr = Some r /\ eval w e' en tr = Some r' /\ r <> r'.
+Proof. exact nested_refuted. Qed.
+Print Assumptions T02c_nested_comps_refuted.
+
+End Comp.
+
+
+(* ------------------------------------------------------------------------------------------- *)
+(* statement-merging / collection-literal tranche (design/C02_coll.md) *)
+Require Pyrefact.RulesCollModel Pyrefact.RulesCollProofs.
+
+Module Coll.
+Import ZArith.
+Import ListNotations.
+Import Pyrefact.RulesExprModel Pyrefact.RulesCollModel Pyrefact.RulesCollProofs.
+
+(* One fold of `x = <display>` and the statements filling x (the five merge rules, as repaired): every
+   run of the original block that terminates normally is a run of the merged block with the same
+   outcome, the same variables (type, element / key order, surviving key object), the same trace.
+   Opaque callees may read any variable but x. *)
+Theorem T02l_merge_window_sound : forall W r s0 x k ps mods more rest q res,
+  blind W x ->
+  init_of r s0 = Some (x, k, ps) -> mods_of r x mods = Some more ->
+  exec_block W (s0 :: mods ++ rest) q = Some res ->
+  exec_block W (SAssign x (display k (ps ++ more)) :: rest) q = Some res.
+Proof. exact merge_window_sound. Qed.
+Print Assumptions T02l_merge_window_sound.
+
+(* the whole pass of a merge rule over a statement list (all transactions) *)
+Theorem T02l_merge_block_sound : forall W r b q res,
+  (forall x, blind W x) ->
+  exec_block W b q = Some res -> exec_block W (merge_block r b) q = Some res.
+Proof. exact merge_block_sound. Qed.
+Print Assumptions T02l_merge_block_sound.
+
+Example T02l_merge_block_example :
+  merge_block MCollAdd
+    [SAssign 1 (ESeq KList [EConst (AInt 1)]); SMeth 1 MAppend [ECall 0 []];
+     SMeth 1 MExtend [ESeq KTuple [EName 2; EStar (EName 3)]]; SMeth 1 MAppend [EName 1]; SExpr (EName 1)]
+  = [SAssign 1 (ESeq KList [EConst (AInt 1); ECall 0 []; EName 2; EStar (EName 3)]);
+     SMeth 1 MAppend [EName 1]; SExpr (EName 1)].
+Proof. reflexivity. Qed.
+
+(* without `blind`: a callee that reads the collection being built (finding F02coll-1) *)
+Theorem T02l_merge_refuted_global_reader :
+  exists W r b q res, exec_block W b q = Some res /\ merge_block r b <> b /\
+                      exec_block W (merge_block r b) q <> Some res.
+Proof. exact merge_refuted_global_reader. Qed.
+Print Assumptions T02l_merge_refuted_global_reader.
+
+(* the rules before the repairs F02coll-4 / F02coll-5 (closed worlds) *)
+Theorem T02l_merge_old_refuted_self_read :
+  exists r b q res, exec_block (fun _ => test_world) b q = Some res /\
+                    exec_block (fun _ => test_world) (scan_old r None b) q <> Some res.
+Proof. exact merge_old_refuted_self_read. Qed.
+Print Assumptions T02l_merge_old_refuted_self_read.
+
+Theorem T02l_merge_old_refuted_order :
+  exists r b q res, exec_block (fun _ => test_world) b q = Some res /\
+                    exec_block (fun _ => test_world) (scan_old r None b) q <> Some res.
+Proof. exact merge_old_refuted_order. Qed.
+Print Assumptions T02l_merge_old_refuted_order.
+
+(* the side conditions of the repaired rules: frame and purity *)
+Theorem T02l_frame : forall x w e, mentions x e = false ->
+  forall en1 en2, (forall y, y <> x -> en1 y = en2 y) -> forall tr, eval w e en1 tr = eval w e en2 tr.
+Proof. exact frame_x. Qed.
+Print Assumptions T02l_frame.
+
+Theorem T02l_pure_eval : forall w e, pure e = true ->
+  forall en tr, eval w e en tr = match eval w e en [] with Some (v, _) => Some (v, tr) | None => None end.
+Proof. exact pure_eval. Qed.
+Print Assumptions T02l_pure_eval.
+
+(* fixes.breakout_starred_args (repaired) *)
+Theorem T02l_starargs_sound : forall w e e' en tr r,
+  rw_starargs e = Some e' -> eval w e en tr = Some r -> eval w e' en tr = Some r.
+Proof. exact starargs_sound. Qed.
+Print Assumptions T02l_starargs_sound.
+
+Theorem T02l_starargs_old_refuted :
+  exists e e' en, eval test_world e en [] <> None /\ eval test_world e' en [] <> eval test_world e en [] /\
+    e = ECall 4 [EStar (ESeq KSet [EStar (EName 2)])] /\ e' = ECall 4 [EStar (EName 2)].
+Proof. exact starargs_old_refuted. Qed.
+Print Assumptions T02l_starargs_old_refuted.
+
+(* fixes.simplify_assign_immediate_return, on nested blocks: same returned value and trace *)
+Theorem T02l_immret_sound : forall W body q,
+  ret_rel (exec_block W body q) (exec_block W (rw_immret body) q).
+Proof. exact rw_immret_sound. Qed.
+Print Assumptions T02l_immret_sound.
+
+(* fixes.replace_with_filter: same outcome, trace and variables except the loop variable (F02-47) *)
+Theorem T02l_filter_sound : forall W s s' q, (forall x, blind W x) -> rw_filter s = Some s' ->
+  exists x, res_rel x (exec_stmt W s q) (exec_stmt W s' q).
+Proof. exact filter_sound. Qed.
+Print Assumptions T02l_filter_sound.
+
+Theorem T02l_filter_refuted_loop_variable :
+  exists s s' q, rw_filter s = Some s' /\ exec_stmt (fun _ => test_world) s q <> exec_stmt (fun _ => test_world) s' q /\
+                 exec_stmt (fun _ => test_world) s q <> None.
+Proof. exact filter_refuted_loop_variable. Qed.
+Print Assumptions T02l_filter_refuted_loop_variable.
+
+(* fixes.simplify_redundant_lambda (repaired), on one positional application *)
+Theorem T02l_lambda_sound : forall w l r en args tr res,
+  NoDup (l_params l ++ match l_vararg l with Some a => [a] | None => [] end) ->
+  rw_lambda l = Some r -> apply_lam w l en args tr = Some res -> apply_repl w r args tr = Some res.
+Proof. exact lambda_sound. Qed.
+Print Assumptions T02l_lambda_sound.
+
+(* fixes.fix_raise_missing_from: value and context kept, cause changed (finding F02coll-3) *)
+Theorem T02l_raise_from_partial : forall caught x,
+  x_value (raise_from caught x) = x_value (raise_plain caught x) /\
+  x_context (raise_from caught x) = x_context (raise_plain caught x).
+Proof. exact raise_from_partial. Qed.
+Print Assumptions T02l_raise_from_partial.
+
+Theorem T02l_raise_from_refuted : forall caught x, raise_from caught x <> raise_plain caught x.
+Proof. exact raise_from_refuted. Qed.
+Print Assumptions T02l_raise_from_refuted.
+
+(* fixes.implicit_defaultdict: one loop step leaves the same items; the class is observable (F02-58) *)
+Theorem T02l_defaultdict_step_items : forall lk d k v, plain_step lk d k v = dd_step lk d k v.
+Proof. exact defaultdict_step_items. Qed.
+Print Assumptions T02l_defaultdict_step_items.
+
+Theorem T02l_defaultdict_refuted_missing_key : forall lk d k, dict_get d k = None ->
+  fst (mapping_read (PlainDict d) k) = None /\ fst (mapping_read (DefaultDict lk d) k) = Some (dd_empty lk).
+Proof. exact defaultdict_refuted_missing_key. Qed.
+Print Assumptions T02l_defaultdict_refuted_missing_key.
+
+(* the merge rules in every statement list of a nested program *)
+Theorem T02l_merge_deep_sound : forall W r, (forall x, blind W x) -> forall b q res,
+  exec_block W b q = Some res -> exec_block W (merge_deep r b) q = Some res.
+Proof. exact merge_deep_sound. Qed.
+Print Assumptions T02l_merge_deep_sound.
+
+(* fixes.implicit_dict_keys_values_items, `for k, _ in d.items()` -> `for k in d.keys()` (and values), as
+   repaired (F02coll-11): same outcome, trace and variables except `_`, for loop bodies that never read `_` *)
+Theorem T02l_items_sound : forall W s s' q, blind W underscore -> rw_items false s = Some s' ->
+  match s with SFor _ _ body => reads_us_b body = false | _ => True end ->
+  res_rel underscore (exec_stmt W s q) (exec_stmt W s' q).
+Proof. exact items_sound. Qed.
+Print Assumptions T02l_items_sound.
+
+Theorem T02l_items_refuted_underscore :
+  exists s s' q, rw_items false s = Some s' /\ exec_stmt (fun _ => test_world) s q <> exec_stmt (fun _ => test_world) s' q /\
+                 exec_stmt (fun _ => test_world) s q <> None.
+Proof. exact items_refuted_underscore. Qed.
+Print Assumptions T02l_items_refuted_underscore.
+
+(* a block that never reads `_` does not depend on the binding of `_` (statement-level frame) *)
+Theorem T02l_block_frame_underscore : forall W b, blind W underscore -> reads_us_b b = false ->
+  forall q1 q2, xequiv underscore q1 q2 -> res_rel underscore (exec_block W b q1) (exec_block W b q2).
+Proof. intros W b H. exact (fB_all W H b). Qed.
+Print Assumptions T02l_block_frame_underscore.
+
+End Coll.
